@@ -18,20 +18,29 @@ use crate::fee_rate_manager::*;
 //@ tags C03 C06 C07 C05 C01
 //@ struct manager/swap_manager.rs PostSwapUpdate
 
-//@ assume SwapTickSequence (Vec of proxied, RefMut-loaded tick arrays) is a shim whose four methods carry ASSUMED contracts: the next initialized tick lies on the trade side of the search index (or is the protocol bound), ticks it returns are reachable-state ticks (liquidity_net != i128::MIN); the fragment tick_arrays proves the per-array part of these contracts
+//@ assume SwapTickSequence (Vec of proxied, RefMut-loaded tick arrays) is a shim whose four methods carry ASSUMED contracts over an abstract predicate seq_init(t): the next initialized tick lies on the trade side of the search index (or is the protocol bound) with no initialized tick in between, get_tick reports seq_init (an unreachable tick is not initialized), update_tick changes the flag of that tick only, returned ticks are reachable-state ticks (liquidity_net != i128::MIN); the fragments tick_arrays / swap_tick_sequence prove the per-array and hand-over parts of these contracts on the real code
 pub struct SwapTickSequence { pub n: usize }
+/// tick index t holds an initialized tick of the sequence (abstract: the bitmap / `initialized` flags of the loaded arrays)
+pub uninterp spec fn seq_init(s: SwapTickSequence, t: int) -> bool;
 impl SwapTickSequence {
     #[verifier::external_body]
     pub fn get_next_initialized_tick_index(&self, tick_index: i32, tick_spacing: u16, a_to_b: bool, start_array_index: usize) -> (r: Result<(usize, i32)>)
         ensures r matches Ok(p) ==> tick_ok(p.1 as int) && p.0 >= start_array_index && p.0 < 3
-            && (a_to_b ==> p.1 <= tick_index || p.1 == -443636) && (!a_to_b ==> p.1 > tick_index || p.1 == 443636),
+            && (a_to_b ==> p.1 <= tick_index || p.1 == -443636) && (!a_to_b ==> p.1 > tick_index || p.1 == 443636)
+            // "next": no initialized tick lies between the search index and the answer (a_to_b searches downwards from tick_index inclusive, b_to_a upwards exclusive)
+            && (a_to_b ==> forall|t: int| p.1 < t <= tick_index ==> !#[trigger] seq_init(*self, t))
+            && (!a_to_b ==> forall|t: int| tick_index < t < p.1 ==> !#[trigger] seq_init(*self, t)),
     { unimplemented!() }
     #[verifier::external_body]
     pub fn get_tick(&self, array_index: usize, tick_index: i32, tick_spacing: u16) -> (r: Result<Tick>)
-        ensures r matches Ok(t) ==> t.liquidity_net != i128::MIN,
+        ensures r matches Ok(t) ==> t.liquidity_net != i128::MIN && t.initialized == seq_init(*self, tick_index as int),
+            r is Err ==> !seq_init(*self, tick_index as int),
     { unimplemented!() }
     #[verifier::external_body]
-    pub fn update_tick(&mut self, array_index: usize, tick_index: i32, tick_spacing: u16, update: &TickUpdate) -> (r: Result<()>) { unimplemented!() }
+    pub fn update_tick(&mut self, array_index: usize, tick_index: i32, tick_spacing: u16, update: &TickUpdate) -> (r: Result<()>)
+        ensures forall|t: int| t != tick_index ==> #[trigger] seq_init(*final(self), t) == seq_init(*old(self), t),
+            seq_init(*final(self), tick_index as int) == (if r is Ok { update.initialized } else { seq_init(*old(self), tick_index as int) }),
+    { unimplemented!() }
     #[verifier::external_body]
     pub fn get_tick_offset(&self, array_index: usize, tick_index: i32, tick_spacing: u16) -> (r: Result<isize>) { unimplemented!() }
 }
@@ -101,6 +110,11 @@ pub open spec fn swap_post(w: Whirlpool, amount: u64, limit: u128, is_in: bool, 
             tick_price_consistent(curr_tick_index as int, curr_sqrt_price as int),
             curr_protocol_fee <= fee_sum,
             a_to_b ==> adjusted_sqrt_price_limit < whirlpool.sqrt_price, !a_to_b ==> adjusted_sqrt_price_limit > whirlpool.sqrt_price,
+            // C05 (ghost interval): the current tick lies in a run of tick indexes [g_lo, g_hi] that contains no initialized tick boundary, and the
+            // liquidity has not changed since the run was entered (liquidity changes only when an initialized tick is crossed)
+            g_lo <= curr_tick_index <= g_hi, //# C05
+            forall|t: int| g_lo < t <= g_hi ==> !#[trigger] seq_init(*swap_tick_sequence, t), //# C05
+            curr_liquidity == g_liq, //# C05
 //@ loop 1
             invariant
                 tick_spacing == whirlpool.tick_spacing, fee_rate == whirlpool.fee_rate, protocol_fee_rate == whirlpool.protocol_fee_rate,
@@ -118,18 +132,39 @@ pub open spec fn swap_post(w: Whirlpool, amount: u64, limit: u128, is_in: bool, 
                 tick_ok(next_tick_index as int), next_tick_sqrt_price as int == price_at(next_tick_index as int), price_ok(sqrt_price_target as int),
                 a_to_b ==> sqrt_price_target as int == max_i(adjusted_sqrt_price_limit as int, next_tick_sqrt_price as int) && sqrt_price_target <= curr_sqrt_price,
                 !a_to_b ==> sqrt_price_target as int == min_i(adjusted_sqrt_price_limit as int, next_tick_sqrt_price as int) && sqrt_price_target >= curr_sqrt_price,
+                g_lo <= curr_tick_index <= g_hi, //# C05
+                forall|t: int| g_lo < t <= g_hi ==> !#[trigger] seq_init(*swap_tick_sequence, t), //# C05
+                curr_liquidity == g_liq, //# C05
+                // the step's initialized-tick target bounds the run on the trade side
+                a_to_b ==> g_lo <= next_tick_index, !a_to_b ==> next_tick_index <= g_hi + 1, //# C05
+//@ inject before /while amount_remaining > 0 && adjusted_sqrt_price_limit != curr_sqrt_price \{/
+    let ghost mut g_lo: int = curr_tick_index as int; let ghost mut g_hi: int = curr_tick_index as int; let ghost mut g_liq: u128 = curr_liquidity;
 //@ inject before /let \(next_tick_sqrt_price, sqrt_price_target\) =/
         proof { axiom_price_at(); }
+        // the search result extends the run up to (a_to_b: down to) the next initialized tick
+        proof { if a_to_b { if (next_tick_index as int) < g_lo { g_lo = next_tick_index as int; } } else { if next_tick_index as int - 1 > g_hi { g_hi = next_tick_index as int - 1; } } }
 //@ inject before /fee_rate_manager\.update_volatility_accumulator\(\)\?;/
             proof { axiom_price_at(); }
             let ghost g_step_liquidity = curr_liquidity; let ghost g_step_price = curr_sqrt_price; let ghost g_fee_split_done = false;
 //@ inject before /let \(next_protocol_fee, next_fee_growth_global_input\) = calculate_fees\(/
             // C06: the fee of a step accrues to the liquidity that was in range during that step (ghost state: liquidity and price at the step's start)
-            proof { assert(curr_liquidity == g_step_liquidity && curr_sqrt_price == g_step_price); }
+            proof { assert(curr_liquidity == g_step_liquidity && curr_sqrt_price == g_step_price); } //# C06 C01
 //@ inject after /curr_fee_growth_global_input = next_fee_growth_global_input;/
             let ghost g_fee_split_done = true;
 //@ inject before /let \(update, next_liquidity\) = calculate_update\(/
                     // C07: a crossed tick snapshots the fee growth AFTER this step's fee has been accrued
-                    proof { assert(g_fee_split_done); }
+                    proof { assert(g_fee_split_done); } //# C07 C01
+                    // C07 / C01: the crossed tick is flipped against the CURRENT global growth of both tokens: the running value (including the fees
+                    // accrued so far in this swap) on the input side, the pool's stored value on the other side
+                    proof {
+                        assert(fee_growth_global_a == (if a_to_b { curr_fee_growth_global_input } else { whirlpool.fee_growth_global_a })); //# C07 C01
+                        assert(fee_growth_global_b == (if a_to_b { whirlpool.fee_growth_global_b } else { curr_fee_growth_global_input })); //# C07 C01
+                    }
+//@ inject after /curr_liquidity = next_liquidity;/
+                    // an initialized tick is crossed: a new run starts on its far side, with the new liquidity
+                    proof { g_liq = next_liquidity; if a_to_b { g_lo = next_tick_index as int - 1; g_hi = next_tick_index as int - 1; } else { g_lo = next_tick_index as int; g_hi = next_tick_index as int; } }
+//@ inject before /let tick_offset = swap_tick_sequence\.get_tick_offset\(/
+                // the target tick is reached: if it is not initialized the run extends over it
+                proof { if !next_tick_initialized { if a_to_b { if next_tick_index as int - 1 < g_lo { g_lo = next_tick_index as int - 1; } } else { if next_tick_index as int > g_hi { g_hi = next_tick_index as int; } } } }
 //@ end
 }
